@@ -10,6 +10,7 @@ package checks
 import (
 	"encoding/json"
 	"fmt"
+	"github.com/DemoHn/Zn/pkg/exec"
 	"os"
 	"path/filepath"
 	"strings"
@@ -30,7 +31,7 @@ type c09Params struct {
 }
 
 var c09Kinds = []string{"抛出异常", "抛出错", "取样越界", "解析JSON", "除零", "索引越界", "未定义"}
-var c09Sites = []string{"语句", "如果", "每当", "遍历", "构造", "拦截内", "遍历字典"}
+var c09Sites = []string{"语句", "如果", "每当", "遍历", "构造", "拦截内", "遍历字典", "调用在遍历内"}
 
 func c09ClassOf(kind int) string {
 	if kind == 1 {
@@ -40,17 +41,20 @@ func c09ClassOf(kind int) string {
 }
 
 func c09Show(args ...zn.Expr) zn.Stmt { return zn.ExprStmt{E: zn.Call{Name: "显示", Args: args}} }
-func c09S(s string) zn.Expr            { return zn.Str{Val: s} }
-func c09N(n int) zn.Expr               { return zn.Num{Lit: fmt.Sprint(n)} }
-func c09V(n string) zn.Expr            { return zn.Var{Name: n} }
+func c09S(s string) zn.Expr           { return zn.Str{Val: s} }
+func c09N(n int) zn.Expr              { return zn.Num{Lit: fmt.Sprint(n)} }
+func c09V(n string) zn.Expr           { return zn.Var{Name: n} }
+
+// the message of the explicit raises: a text that a formatting function would mangle
+const c09Msg = "满100%d减5%s，折扣100%"
 
 // the raising statement(s) of a kind
 func c09Raise(kind int) []zn.Stmt {
 	switch kind {
 	case 0:
-		return []zn.Stmt{zn.Throw{Class: "异常", Args: []zn.Expr{c09S("m")}}}
+		return []zn.Stmt{zn.Throw{Class: "异常", Args: []zn.Expr{c09S(c09Msg)}}}
 	case 1:
-		return []zn.Stmt{zn.Throw{Class: "错", Args: []zn.Expr{c09S("m")}}}
+		return []zn.Stmt{zn.Throw{Class: "错", Args: []zn.Expr{c09S(c09Msg)}}}
 	case 2:
 		return []zn.Stmt{zn.ExprStmt{E: zn.MCall{Root: c09S("abc"), Chain: []zn.Call{{Name: "取样", Args: []zn.Expr{c09N(0), c09N(1)}}}}}}
 	case 3:
@@ -68,7 +72,7 @@ func c09Raise(kind int) []zn.Stmt {
 func c09Site(site, kind int, defs *[]zn.Stmt) []zn.Stmt {
 	raise := c09Raise(kind)
 	switch site {
-	case 0:
+	case 0, 7:
 		return raise
 	case 1:
 		return []zn.Stmt{zn.If{Cond: c09V("真"), Then: raise}}
@@ -110,6 +114,15 @@ func c09Handlers(level int, p c09Params) []zn.Catch {
 		case 3:
 			// no 输出, but the last statement is an expression with a value of its own
 			b = append(b, zn.ExprStmt{E: zn.Group{E: zn.Bin{Op: "+", L: c09N(2000), R: c09N(level)}}})
+		case 4:
+			// the handler calls a method that raises and handles an exception of its own (with
+			// 输出 in that inner handler), then goes on: 其 is still the OUTER exception and the
+			// handler runs to its own 输出
+			b = append(b, c09Show(c09S("内处"), zn.Call{Name: "内处"}))
+			if p.Kind <= 1 {
+				b = append(b, c09Show(zn.This{Name: "内容"}))
+			}
+			b = append(b, c09Show(c09S("拦后"), c09N(level)), zn.Return{Val: c09N(3000 + level)})
 		}
 		return b
 	}
@@ -144,7 +157,16 @@ func c09Build(p c09Params) (main *zn.Program, ext *zn.Program) {
 			// raise only on the first call (参 == 0), so that a second call completes
 			body = append(body, zn.If{Cond: zn.Bin{Op: "==", L: c09V("参"), R: c09N(0)}, Then: site})
 		} else {
-			body = append(body, zn.Decl{Pairs: []zn.DeclPair{{Names: []string{fmt.Sprintf("回%d", l)}, Val: zn.Call{Name: fmt.Sprintf("F%d", l+1), Args: []zn.Expr{c09V("参")}}}}})
+			call := zn.Call{Name: fmt.Sprintf("F%d", l+1), Args: []zn.Expr{c09V("参")}}
+			if p.Site == 7 {
+				// the call sits in the body of a 遍历 loop of THIS (the calling) level
+				rn := fmt.Sprintf("回%d", l)
+				body = append(body, zn.Decl{Pairs: []zn.DeclPair{{Names: []string{rn}, Val: c09N(-3)}}},
+					zn.Iter{Vars: []string{fmt.Sprintf("环%d", l)}, Target: zn.List{Items: []zn.Expr{c09N(1), c09N(2)}},
+						Body: []zn.Stmt{zn.If{Cond: zn.Bin{Op: "==", L: c09V(fmt.Sprintf("环%d", l)), R: c09N(1)}, Then: []zn.Stmt{zn.ExprStmt{E: zn.Assign{Target: c09V(rn), Val: call}}}}}})
+			} else {
+				body = append(body, zn.Decl{Pairs: []zn.DeclPair{{Names: []string{fmt.Sprintf("回%d", l)}, Val: call}}})
+			}
 			body = append(body, c09Show(c09S("回"), c09N(l), c09V(fmt.Sprintf("回%d", l))))
 		}
 		body = append(body, c09Show(c09S("后"), c09N(l), c09V(local)))
@@ -153,6 +175,11 @@ func c09Build(p c09Params) (main *zn.Program, ext *zn.Program) {
 		}
 		body = append(body, zn.Return{Val: c09N(l * 100)})
 		return zn.Func{Name: name, Params: []string{"参"}, Body: body, Catches: c09Handlers(l, p)}
+	}
+	inner := zn.Func{Name: "内处", Body: []zn.Stmt{zn.Throw{Class: "异常", Args: []zn.Expr{c09S("内层")}}, zn.Return{Val: c09N(-5)}},
+		Catches: []zn.Catch{{Class: "异常", Body: []zn.Stmt{c09Show(c09S("内处拦"), zn.This{Name: "内容"}), zn.Return{Val: c09N(7)}}}}}
+	if p.Body == 4 {
+		errClass = append(errClass, inner)
 	}
 	mainBody := []zn.Stmt{}
 	imports := []zn.Import{}
@@ -169,6 +196,7 @@ func c09Build(p c09Params) (main *zn.Program, ext *zn.Program) {
 		ext.Body = append(ext.Body, sharedDefs...)
 		ext.Body = append(ext.Body, level(p.Depth))
 		imports = append(imports, zn.Import{Name: "外"})
+
 	} else {
 		mainBody = append(mainBody, errClass...)
 		mainBody = append(mainBody, sharedDefs...)
@@ -199,8 +227,15 @@ func c09Build(p c09Params) (main *zn.Program, ext *zn.Program) {
 		mainBody = append(mainBody, site...)
 		mainBody = append(mainBody, c09Show(c09S("后"), c09N(0), c09V("主")))
 	} else {
+		first1 := zn.Call{Name: "F1", Args: []zn.Expr{c09N(0)}}
+		if p.Site == 7 {
+			mainBody = append(mainBody, zn.Decl{Pairs: []zn.DeclPair{{Names: []string{"果"}, Val: c09N(-3)}}},
+				zn.Iter{Vars: []string{"环0"}, Target: zn.List{Items: []zn.Expr{c09N(1), c09N(2)}},
+					Body: []zn.Stmt{zn.If{Cond: zn.Bin{Op: "==", L: c09V("环0"), R: c09N(1)}, Then: []zn.Stmt{zn.ExprStmt{E: zn.Assign{Target: c09V("果"), Val: first1}}}}}})
+		} else {
+			mainBody = append(mainBody, zn.Decl{Pairs: []zn.DeclPair{{Names: []string{"果"}, Val: first1}}})
+		}
 		mainBody = append(mainBody,
-			zn.Decl{Pairs: []zn.DeclPair{{Names: []string{"果"}, Val: zn.Call{Name: "F1", Args: []zn.Expr{c09N(0)}}}}},
 			c09Show(c09S("果"), c09V("果"), c09V("主")),
 			c09Show(c09S("探"), zn.Call{Name: "探"}),
 			zn.Decl{Pairs: []zn.DeclPair{{Names: []string{"果二"}, Val: zn.Call{Name: "F1", Args: []zn.Expr{c09N(1)}}}}},
@@ -280,7 +315,9 @@ func c09Check(p c09Params) *mc.Failure {
 	bucket := func(b string) string {
 		return fmt.Sprintf("%s/d%d/%s/%s/h%v/b%d/obj=%v/mod=%v", b, p.Depth, c09Kinds[p.Kind], c09Sites[p.Site], p.Handler, p.Body, p.Obj, p.Mod)
 	}
-	short := func(b string) string { return fmt.Sprintf("%s:%s:%s:mod=%v", b, c09Kinds[p.Kind], c09Sites[p.Site], p.Mod) }
+	short := func(b string) string {
+		return fmt.Sprintf("%s:%s:%s:mod=%v", b, c09Kinds[p.Kind], c09Sites[p.Site], p.Mod)
+	}
 	_ = bucket
 	if got.Panic != "" {
 		return &mc.Failure{Kind: "panic", Bucket: short("panic"), Case: cs(), Observed: got.Panic, Detail: got.Stack}
@@ -296,6 +333,30 @@ func c09Check(p c09Params) *mc.Failure {
 		// the uncaught exception ends the program "with its message"
 		if x, ok := werr.Exc.(*zn.XV); ok && x.MsgKnown && got.Err.Kind == "exception" && got.Err.ExcClass == "异常" && got.Err.Msg != x.Msg {
 			return &mc.Failure{Kind: "mismatch", Bucket: short("message"), Case: cs(), Expected: "message " + x.Msg, Observed: got.Err.Msg}
+		}
+		// ... also in what the user is shown: the rendered report carries the message verbatim
+		if x, ok := werr.Exc.(*zn.XV); ok && x.MsgKnown && got.Err.Kind == "exception" && got.RawErr != nil {
+			raw := got.RawErr
+			if ext == nil {
+				// the in-memory run returns the evaluator's bare error: what the user is shown is what
+				// Interpreter.Execute returns for the same program
+				raw = zn.RunReal(src, nil).RawErr
+			}
+			if raw == nil {
+				return &mc.Failure{Kind: "mismatch", Bucket: short("rendered-message"), Case: cs(), Expected: "Interpreter.Execute ends with the exception as well", Observed: "no error"}
+			}
+			// (the report also quotes the source line, which holds the message as a literal: look
+			// at its last line, "…异常：<message>")
+			rep := exec.DisplayError(raw)
+			last := ""
+			for _, ln := range strings.Split(rep, "\n") {
+				if strings.TrimSpace(ln) != "" {
+					last = ln
+				}
+			}
+			if !strings.HasSuffix(strings.TrimRight(last, " "), x.Msg) {
+				return &mc.Failure{Kind: "mismatch", Bucket: short("rendered-message"), Case: cs(), Expected: "the report shown to the user contains the message " + x.Msg, Observed: clipS(rep, 300)}
+			}
 		}
 		return nil
 	}
@@ -319,14 +380,14 @@ func c09Check(p c09Params) *mc.Failure {
 
 // enumerate the product space; returns total count and an unranker
 // handler bodies: 0 no 输出 (ends with 显示), 1 输出 v, 2 raises again, 3 no 输出 but ends with a valued expression
-const c09NBodies = 4
+const c09NBodies = 5
 
 func c09Space(maxDepth int) (int64, func(k int64) c09Params) {
 	type dim struct{ depth int }
 	var sizes []int64
 	for d := 0; d <= maxDepth; d++ {
 		n := int64(len(c09Kinds) * len(c09Sites) * c09NBodies) // kind site body
-		n *= pow64(4, d+1)                             // handlers per level
+		n *= pow64(4, d+1)                                     // handlers per level
 		if d >= 1 {
 			n *= 4 // obj x mod
 		}
@@ -366,7 +427,7 @@ func init() {
 	mc.Register(&mc.Check{
 		ID:    "C09",
 		Level: "exploration",
-		Rule: "E1 exhaustive over the product: raise kind {抛出异常, 抛出 custom type, failing built-in (取样 out of range), failing library call (解析JSON), 1 / 0, index out of range, undefined name} x raise site {statement, in 如果, in 每当, in 遍历 over a list, in 遍历 over a dictionary, in a constructor, inside a handler} x call depth 0..D x handler placement per level {none, matching, non-matching, non-matching+matching} x handler body {no 输出, 输出 v, raises again, no 输出 but a valued expression as last statement} x level 1 plain method / method of an object x innermost level in the main file / in an imported module; every program runs follow-up probes after the handled call: caller locals, caller's 其, a callee local that must be gone (guarded read), a second call of the same chain, final result; on in-memory runs also the VM's call depth and scope depth. Oracle: reference interpreter. Distinct by construction; non-trivial = at least one handler present.",
+		Rule:  "E1 exhaustive over the product: raise kind {抛出异常, 抛出 custom type, failing built-in (取样 out of range), failing library call (解析JSON), 1 / 0, index out of range, undefined name} x raise site {statement, in 如果, in 每当, in 遍历 over a list, in 遍历 over a dictionary, in a constructor, inside a handler, statement with every caller's call inside a 遍历 loop of the caller} x call depth 0..D x handler placement per level {none, matching, non-matching, non-matching+matching} x handler body {no 输出, 输出 v, raises again, no 输出 but a valued expression as last statement, calls a method that raises and handles an exception of its own and then goes on using 其} x level 1 plain method / method of an object x innermost level in the main file / in an imported module; every program runs follow-up probes after the handled call: caller locals, caller's 其, a callee local that must be gone (guarded read), a second call of the same chain, final result; on in-memory runs also the VM's call depth and scope depth. Oracle: reference interpreter. Distinct by construction; non-trivial = at least one handler present.",
 		Assumptions: []string{
 			"reference semantics from manual ch.4: runtime faults and failing built-ins are exceptions of class 异常; handler value is its 输出 or 空",
 			"the message text of faults / built-in failures is not compared (其内容 is displayed only for 抛出 with a known message)",
